@@ -855,13 +855,40 @@ def lookup_scenarios(ck, only=None):
     return out
 
 
+def reduce_history(case, seq, whats):
+    """minimise a history whose LAST faulty pass is a believable 404 and whose complaints (about that pass) are all
+    containment complaints: the earlier faulty passes only set the scene, so look for a single believable 404 on the same
+    GET, a few fault-free passes into the never-faulted run, that is in the known class.  None if there is none — the
+    history then stays as it is (and, being mixed, an ordinary violation)."""
+    try:
+        if len(seq.get("faults") or []) < 2 or not all(any(re.search(p, w) for p in KNOWN_WHATS) for w in whats):
+            return None
+        _, sites = replay_sequence(case, seq)
+        if len(sites) != len(seq["faults"]) or sites[-1] is None or not is_believable_site(case, sites[-1]):
+            return None
+        prep = wf_run.prepare_case(case)
+        traj = Recovery(prep, bound=2 * size(case) + 8).trajectory(prep.objects)
+        for st in range(seq.get("start", 0), min(len(traj), seq.get("start", 0) + len(seq["faults"]) + 1)):
+            idx = next((e["i"] for e in traj[st][1]["cluster"].log
+                        if e["method"] == "GET" and e["name"] == sites[-1]["name"]), None)
+            cand = {"start": st, "faults": [[idx, 404]]}
+            if idx is not None and in_known_class({"case": case, "faults": cand}):
+                return cand
+    except Infra:
+        raise
+    except Exception:
+        pass
+    return None
+
+
 def report(ck, case, found, corpus=None):
     """record what a workflow's sweep found: one record per failing fault sequence, shrunk first (the oracle alone
     decides while shrinking).  A sequence of the KNOWN class is shrunk INSIDE the class and goes through the
     classifier; any other one is shrunk OUTSIDE it (so that minimising can never turn a violation into the finding)."""
-    seqs, seen = [], set()
+    seqs, seen, whats = [], set(), {}
     for seq, what in found:
         k = json.dumps(seq, sort_keys=True)
+        whats.setdefault(k, []).append(what)
         if k not in seen:
             seen.add(k)
             seqs.append((seq, what))
@@ -870,6 +897,11 @@ def report(ck, case, found, corpus=None):
         if len(ck.violations) >= 3:
             break
         known = in_known_class({"case": case, "faults": seq})
+        if not known and corpus is None:
+            shorter = reduce_history(case, seq, whats[json.dumps(seq, sort_keys=True)])
+            if shorter is not None:
+                seq, known = shorter, True
+                ck.count("histories-minimised-into-known-class")
         if known and known_done and corpus is None:
             ck.count("known-finding-occurrences")
             continue
